@@ -233,12 +233,15 @@ class C04(Prop):
                         continue
                     ops.append("%s %s" % (e, C.hexs(l + t)))
                 self._groups.append((start, len(ops), l))
-        for h in G.gen_valid_headers(rng, 150 if tier == "quick" else 4000, max_payload=200, big_every=10 ** 9):
+        for i, h in enumerate(G.gen_valid_headers(rng, 150 if tier == "quick" else 4000, max_payload=200, big_every=10 ** 9)):
             for e in ("v2", "auto"):
                 start = len(ops)
                 ops.append("%s %s" % (e, G.spec(h)))
                 for t in V.TRAILERS:
                     ops.append("%s %s" % (e, G.spec(h + t)))
+                if i < 6:
+                    for x in G.gen_big_trailers(rng, [h]):
+                        ops.append("%s %s" % (e, G.spec(x)))
                 self._groups.append((start, len(ops), h))
         return ops
 
